@@ -23,6 +23,9 @@
 (*            the add-path setting the record states ("ok" | "error")       *)
 (*   content  decoded prefixes / attributes / next hop vs. the monitored    *)
 (*            event ("same" | "diff")                                       *)
+(*   stateless the bytes equal those of a long-lived codec (one per BMP     *)
+(*            session / MRT file) that has just encoded a message of the   *)
+(*            same family with the opposite add-path setting               *)
 (***************************************************************************)
 EXTENDS Naturals, Sequences, FiniteSets, TLC
 
@@ -97,6 +100,7 @@ Reason(e, o) ==
   ELSE IF e.k \in {"rm", "mrt", "peerup", "td"} /\ o.parse # "ok" THEN "an embedded BGP message does not parse"
   ELSE IF e.k = "td" /\ (~o.idxok \/ ~o.countok) THEN "TABLE_DUMP_V2 peer index / entry count inconsistent"
   ELSE IF o.content # "same" THEN "the record does not carry the monitored data"
+  ELSE IF e.k \in {"rm", "mrt"} /\ ~o.stateless THEN "the encoding depends on what the same codec encoded before (add-path state carried over)"
   ELSE ""
 
 VARIABLE c
